@@ -8,8 +8,9 @@ func init() {
 			"(ZONE) every time.Unix result is used only as the receiver of .In(opts.timezoneOrUTC()), every time.Date takes that zone, timezoneOrUTC is {Timezone set -> Timezone; else UTC}, no clock is read; " +
 			"(UNITS) start time is (3600h+60m+s) seconds from the three regexp groups, start date is midnight of (group1, group2, group3), delay is scaled by time.Second, direction is nil/0/else -> Unspecified/False/True, every *T -> *U converter maps nil to nil and present to present; " +
 			"(MERGE/GUARD/UNIQ, shared with C07/C04) one Trip per descriptor and one Vehicle per identifier, each entity parser yields a trip/vehicle whenever the wire carries one; whether an optional wire field is present is decided by its pointer, never by comparing its value with the zero value (an explicit zero is present); (G7) no package-level state. " +
-			"Not decided: numeric ranges, protobuf decoding, DST arithmetic of the time package. In the timestamp converters time.Unix receives the wire number as seconds (no arithmetic, no merge) and the constant 0 as nanoseconds. The hooks of the no-op extension look at nothing and answer constants, so without an extension every entity is transcribed.",
+			"Not decided: numeric ranges, protobuf decoding, DST arithmetic of the time package. In the timestamp converters time.Unix receives the wire number as seconds (no arithmetic, no merge) and the constant 0 as nanoseconds. The hooks of the no-op extension look at nothing and answer constants, so without an extension every entity is transcribed. (ELEMS) every element of translations, stop time updates and active periods is appended on every trip around its loop.",
 		Rules: []Rule{
+			{Name: "ELEMS", Doc: "every element of the repeated wire fields that have no filter (translations, stop time updates, active periods) is transcribed: no trip around their loops goes past the append", MinInstances: 2, Run: func(c *Ctx) { runEveryElementTranscribed(c, "ELEMS") }},
 			{Name: "NOEXT", Doc: "the hooks of the no-op extension look at nothing and answer constants: without an extension every entity is transcribed", MinInstances: 4, Run: func(c *Ctx) { runNoExtensionIsInert(c, "NOEXT") }},
 			{Name: "SCAN", Doc: "a loop that does something for each element is not left early (no break out of a processing loop)", MinInstances: 1, Run: func(c *Ctx) { runFullScan(c, realtimeFns(c), "SCAN") }},
 			{Name: "A3", Doc: "wire table against gtfs-realtime.proto", MinInstances: 35, Run: runWireTable},
